@@ -54,6 +54,7 @@ type Ctx struct {
 	ordinal   uint64 // cases started (for the watchdog / skip-to)
 	skipTo    uint64
 	until     uint64 // when >0: stop after the case with this ordinal
+	lastSnap  int64
 	lastBeat  int64
 	state     []byte // mmap'ed crash-location record
 	replaying bool
@@ -132,11 +133,30 @@ func (c *Ctx) Begin(parts ...string) bool {
 		c.finish()
 		os.Exit(0)
 	}
-	atomic.StoreInt64(&c.lastBeat, time.Now().UnixNano())
+	now := time.Now().UnixNano()
+	atomic.StoreInt64(&c.lastBeat, now)
 	if c.state != nil {
 		writeState(c.state, ord, parts)
 	}
+	if now-c.lastSnap > 1e9 {
+		c.lastSnap = now
+		c.snapshot("snap")
+	}
 	return true
+}
+
+// snapshot emits the counters accumulated so far, so that a worker that dies later does not lose them.
+func (c *Ctx) snapshot(kind string) {
+	c.mu.Lock()
+	fin := map[string]interface{}{
+		"t": kind, "counters": c.counters, "samples": c.samples, "notes": c.notes,
+		"wall_s": time.Since(c.start).Seconds(), "ordinal": atomic.LoadUint64(&c.ordinal),
+	}
+	b, _ := json.Marshal(fin)
+	c.out.Write(b)
+	c.out.WriteByte('\n')
+	c.out.Flush()
+	c.mu.Unlock()
 }
 
 // Beat is a cheap liveness signal for long loops between Begin calls.
@@ -309,18 +329,7 @@ func main() {
 	c.finish()
 }
 
-func (c *Ctx) finish() {
-	c.mu.Lock()
-	fin := map[string]interface{}{
-		"t": "done", "counters": c.counters, "samples": c.samples, "notes": c.notes,
-		"wall_s": time.Since(c.start).Seconds(), "ordinal": c.ordinal,
-	}
-	b, _ := json.Marshal(fin)
-	c.out.Write(b)
-	c.out.WriteByte('\n')
-	c.out.Flush()
-	c.mu.Unlock()
-}
+func (c *Ctx) finish() { c.snapshot("done") }
 
 // scrubEnv removes every environment variable a case could name, so that a case
 // sees exactly the variables it sets itself.
